@@ -71,6 +71,8 @@ FIXED = {
     "Prod.simplify kept a stale hash": ("C03", "prod(RX(a), RX(-a), RX(-a)).simplify() returned Identity (stale hash after merging same-axis rotations)"),
     "ChangeOpBasis pauli_rep multiplied": ("C01", "change_op_basis(X, Y, Z).pauli_rep was the product in reversed order (i*I instead of -i*I)"),
     "Z/S/T.pow returned an unqueued copy": ("C41", "qp.pow(Z(0), 3, lazy=False) inside a recording context removed the gate (also S**5, T**9)"),
+    "adjoint_jacobian/jvp/vjp lost the parameter index": ("C34", "diff_method='adjoint': RX(x,0); Rot(0.1,0.2,0.3,0) (constant multi-parameter gate after a trainable one) gave gradient 0.0 instead of -0.487"),
+    "sparse expectation values dropped a batch axis of size one": ("C28", "expval(LinearCombination / SparseHamiltonian) with a broadcast parameter of batch size one returned shape () instead of (1,) on default.qubit and default.mixed (math.squeeze in csr_dot_products)"),
     "clifford_t_decomposition maps PhaseShift(3 pi/4)": ("C15", "clifford_t_decomposition mapped PhaseShift(3pi/4) / PhaseShift(5pi/4) to a bare T-adjoint / T (error 2.0)"),
     "IntegerComparator(geq=False) matrix": ("C10", "IntegerComparator(value > 2**n, geq=False).matrix() raised ValueError"),
 }
@@ -118,7 +120,6 @@ KNOWN = [
     ("C14", "non-unitary-block", {"kind": "two"}, "two_qubit_decomposition emits non-unitary QubitUnitary blocks for near-boundary inputs (same root cause as the accuracy loss)"),
     ("C15", "precision", {"fn": "rs", "eps_below_3e-7": True}, "rs_decomposition silently returns ~1e-3..1e-4 approximations for eps below ~3e-7 (frequent below 5e-8), independent of the trial budgets"),
     ("C28", "kraus-channel", {"channel": "ThermalRelaxationError", "regime": "t2>t1,tg>4*t2"}, "ThermalRelaxationError Kraus operators are not trace preserving for T2 > T1 and tg >> T2 (stability epsilon dominates)"),
-    ("C28", "result-shape", {"batch1_csr_obs": True}, "expval(LinearCombination / SparseHamiltonian) with a broadcast parameter of batch size one loses the batch axis (math.squeeze in csr_dot_products; default.qubit has the same squeeze)"),
     ("C28", "kraus-complete", {"channel": "ThermalRelaxationError", "regime": "t2>t1,tg>4*t2"}, "ThermalRelaxationError Kraus operators are not trace preserving for T2 > T1 and tg >> T2 (stability epsilon dominates)"),
 ]
 
